@@ -308,6 +308,18 @@ def r_aggregate_conversion(ck: Checker) -> None:
     ck.add("... defined by a positive `AUX = interval` in the element's condition", oki, ri, lits_i[0] if lits_i else ri.node, f"`{fmt(lits_i[0]) if lits_i else None}`", "")
     mk = resolved_calls(ck.prg, func, "ngo.utils.globals:UniqueVariables.make_unique", into_nested=True)
     ck.add("anonymous variables of positive literals become fresh variables", len(mk) >= 1, func, func.node, f"make_unique calls {len(mk)}", "`{p(_)}` counts distinct p atoms: each `_` must become its own tuple variable")
+    # ... EACH occurrence its own: the fresh variable is asked for inside the callback that transform_ast runs per variable
+    # node (a nested function / lambda of the variable), not computed once and handed to a renaming
+    per_occurrence = []
+    for nested in [f for q, f in ck.prg.funcs.items() if q.startswith(func.qualname + ".<locals>.")]:
+        calls_n = resolved_calls(ck.prg, nested, "ngo.utils.globals:UniqueVariables.make_unique")
+        if calls_n and nested.params():
+            itn = ck.interp(nested)
+            v = nested.params()[0]
+            per_occurrence += [c for c in calls_n if itn.holds(c, f"{v}.name == '_'")]
+    ck.add("every occurrence of `_` gets its own fresh variable", len(per_occurrence) >= 1 and len(per_occurrence) == len(mk), func, mk[0] if mk else func.node,
+           f"{len(per_occurrence)} of {len(mk)} make_unique call(s) sit in a per-variable callback guarded by `name == '_'`",
+           "`2 { edge(_,_) }` counts distinct edges: one shared fresh variable turns it into `edge(A,A)`")
     ro = ck.func("normalize:replace_old_aggregates")
     itr = ck.interp(ro)
     sites: dict[int, ast.Call] = {}
@@ -486,7 +498,7 @@ RULES = RULES_EXTRA + [
     Rule("C05.TABLE.equality", P, r_equality_table),
     Rule("C05.C4.local-only", P, r_local_only),
     Rule("C05.C6.inline-rule", P + ("C02",), r_inline_rule),
-    Rule("C05.aggregate-conversion", P, r_aggregate_conversion),
+    Rule("C05.aggregate-conversion", P, r_aggregate_conversion, extra={"C07": ("gets its own fresh variable", "become fresh variables")}),
     Rule("C05.exline", P + ("C04",), r_exline, extra={"C03": ("normal form pipeline",)}),
     Rule("C05.C.replace-assignments", ("C10", "C11", "C01", "C04"), r_replace_assignments),
 ]
